@@ -167,6 +167,11 @@ def arg_code(atom, n, v):
         return [], [], ["zz_obj%d" % v], []
     if isinstance(atom, A.PtrPtrOut):
         return ["%s, pointer :: %s(:)" % (atom.t.fdecl, z)], [], [z], [obs_array(atom.t, z)]
+    if isinstance(atom, A.PtrPtrIn):
+        d = ["%s, target :: %s_r1(2), %s_r2(2)" % (atom.t.fdecl, z, z), "type(C_PTR), target :: %s(2)" % z]
+        pre = ["%s_r1 = [%s, %s]" % (z, flit(atom.t, v[0]), flit(atom.t, v[1])), "%s_r2 = [%s, %s]" % (z, flit(atom.t, v[2]), flit(atom.t, v[3])),
+               "%s(1) = c_loc(%s_r1)" % (z, z), "%s(2) = c_loc(%s_r2)" % (z, z)]
+        return d, pre, ["c_loc(%s)" % z], []
     if isinstance(atom, A.VoidPtr):
         return ["integer(C_INT), target :: %s" % z], ["%s = %s" % (z, flit(A.NATIVE["int"], v))], ["c_loc(%s)" % z], [obs_scalar(A.NATIVE["int"], z)]
     if isinstance(atom, A.StrArrIn):
